@@ -73,8 +73,176 @@ def _mutation_sites(ctx, name: str) -> List[str]:
     return out
 
 
+# ---- a process-wide memo table is harmless when its key determines its value ------------------------------
+WHOLE = "<whole>"
+
+
+def _param_usage(ctx, f: Func, p: str, depth: int = 0, seen=None) -> Set[str]:
+    """What of parameter p does f's result depend on?  A set of single letters when every use is a membership test
+    `"c" in p` (directly, in a callee it is handed to, or through an attribute a constructor stores it in);
+    {WHOLE} otherwise."""
+    seen = seen if seen is not None else set()
+    if (id(f), p) in seen or depth > 4:
+        return {WHOLE}
+    seen.add((id(f), p))
+    out: Set[str] = set()
+    scopes = [f] + [h for h in f.children.values() if not isinstance(h.node, ast.Lambda) and p not in h.params()]
+    for h in scopes:
+        for u in h.own_nodes():
+            if not (isinstance(u, ast.Name) and u.id == p and isinstance(u.ctx, ast.Load)):
+                continue
+            out |= _use(ctx, h, u, depth, seen)
+            if WHOLE in out:
+                return {WHOLE}
+    return out
+
+
+def _use(ctx, h: Func, u: ast.AST, depth: int, seen) -> Set[str]:
+    par = getattr(u, "_parent", None)
+    if isinstance(par, ast.Compare) and len(par.ops) == 1 and isinstance(par.ops[0], (ast.In, ast.NotIn)) and par.comparators[0] is u and isinstance(par.left, ast.Constant) and isinstance(par.left.value, str) and len(par.left.value) == 1:
+        return {par.left.value}
+    if isinstance(par, ast.Call) and u in par.args and not any(isinstance(a, ast.Starred) for a in par.args):
+        cs = ctx.cg.site_of_call.get(id(par))
+        if cs is not None and cs.kind == "resolved" and cs.targets:
+            res: Set[str] = set()
+            for tgt in cs.targets:
+                if isinstance(tgt.node, ast.Lambda):
+                    return {WHOLE}
+                ps = [a.arg for a in tgt.node.args.args]
+                if ps and ps[0] in ("self", "cls"):
+                    ps = ps[1:]
+                i = par.args.index(u)
+                if i >= len(ps):
+                    return {WHOLE}
+                res |= _param_usage(ctx, tgt, ps[i], depth + 1, seen)
+            return res
+        return {WHOLE}
+    if isinstance(par, ast.Assign) and par.value is u and len(par.targets) == 1 and isinstance(par.targets[0], ast.Attribute) and norm(par.targets[0].value) == "self" and h.cls is not None:
+        attr = par.targets[0].attr
+        res = set()
+        for m in h.cls.all_methods:
+            if isinstance(m.node, ast.Lambda):
+                continue
+            for x in m.own_nodes():
+                if isinstance(x, ast.Attribute) and x.attr == attr and norm(x.value) == "self" and isinstance(x.ctx, ast.Load):
+                    res |= _use(ctx, m, x, depth + 1, seen)
+                    if WHOLE in res:
+                        return {WHOLE}
+        return res
+    return {WHOLE}
+
+
+def memo_table(ctx, m, name: str) -> Optional[Tuple[bool, str]]:
+    """Is the module-level dict `name` of module m a memo table of one module-level function?  None: not of that
+    shape.  (True, note): its key determines the cached value.  (False, why): it does not."""
+    refs = []
+    for mod in ctx.tree.modules.values():
+        if mod is not m and name in mod.imports:
+            return None
+    holder = None
+    for f in ctx.tree.funcs:
+        if f.module is not m:
+            continue
+        for n in f.own_nodes():
+            if isinstance(n, ast.Name) and n.id == name:
+                refs.append((f, n))
+    if not refs:
+        return None
+    fs = {id(f) for f, _ in refs}
+    if len(fs) != 1:
+        return None
+    holder = refs[0][0]
+    if holder.parent is not None or holder.cls is not None or isinstance(holder.node, ast.Lambda):
+        return None
+    keys = []
+    stores = []
+    for _, n in refs:
+        par = getattr(n, "_parent", None)
+        gp = getattr(par, "_parent", None)
+        if isinstance(par, ast.Attribute) and isinstance(gp, ast.Call) and gp.func is par:
+            if par.attr == "get" and gp.args:
+                keys.append(gp.args[0])
+                continue
+            if par.attr in ("pop", "clear", "popitem", "keys"):
+                continue
+            return None
+        if isinstance(par, ast.Subscript) and par.value is n:
+            if isinstance(par.ctx, ast.Store):
+                keys.append(par.slice)
+                stores.append(gp)
+                continue
+            if isinstance(par.ctx, ast.Del):
+                continue
+            keys.append(par.slice)
+            continue
+        if isinstance(par, ast.Compare) and n in par.comparators:
+            keys.append(par.left)
+            continue
+        if isinstance(par, ast.Call) and norm(par.func) in ("len", "iter"):
+            continue
+        return None
+    if not keys or not stores:
+        return None
+    ktxt = {norm(k) for k in keys}
+    if len(ktxt) != 1:
+        return (False, f"looked up under {sorted(ktxt)}: lookups and the store do not use one key")
+    kexpr = keys[0]
+    if isinstance(kexpr, ast.Name):
+        asg = [a for a in holder.own_nodes() if isinstance(a, ast.Assign) and any(isinstance(t, ast.Name) and t.id == kexpr.id for t in a.targets)]
+        if len(asg) != 1:
+            return None
+        kexpr = asg[0].value
+    comps = list(kexpr.elts) if isinstance(kexpr, ast.Tuple) else [kexpr]
+    params = [p for p in holder.params()]
+    whole: Set[str] = set()
+    letters: Dict[str, Set[str]] = {}
+    for c in comps:
+        if isinstance(c, ast.Name) and c.id in params:
+            whole.add(c.id)
+        elif isinstance(c, ast.Compare) and len(c.ops) == 1 and isinstance(c.ops[0], ast.In) and isinstance(c.left, ast.Constant) and isinstance(c.comparators[0], ast.Name) and c.comparators[0].id in params:
+            letters.setdefault(c.comparators[0].id, set()).add(c.left.value)
+        else:
+            return (False, f"the key component `{norm(c)}` is neither a parameter nor a flag test of one")
+    key_nodes = {id(x) for x in ast.walk(kexpr)}
+    for p in params:
+        if p in whole:
+            continue
+        need: Set[str] = set()
+        for u in holder.own_nodes():
+            if isinstance(u, ast.Name) and u.id == p and isinstance(u.ctx, ast.Load) and id(u) not in key_nodes:
+                need |= _use(ctx, holder, u, 0, set())
+        if not need:
+            continue
+        have = letters.get(p, set())
+        if WHOLE in need:
+            return (False, f"the cached value is computed from `{p}` as a whole, but the key records only {sorted(have) if have else 'nothing'} of it")
+        if not need <= have:
+            return (False, f"the computation reads {sorted(need)} of `{p}` (followed into the constructors and functions it is handed to), the key records only {sorted(have)}: a value compiled for one setting of {sorted(need - have)} is handed to requests with the other")
+    # the shared values must stay untouched: attributes that receive them are never mutated
+    recv: Set[str] = set()
+    for f in ctx.tree.funcs:
+        for a in f.own_nodes():
+            if isinstance(a, ast.Assign) and isinstance(a.value, ast.Call) and isinstance(a.value.func, ast.Name) and a.value.func.id == holder.name and f.module is m:
+                for t in a.targets:
+                    for x in ([t] if not isinstance(t, ast.Tuple) else t.elts):
+                        if isinstance(x, ast.Attribute):
+                            recv.add(x.attr)
+    for attr in sorted(recv):
+        for mod in ctx.tree.modules.values():
+            if not mod.name.startswith(m.name.split(".")[0]):
+                continue
+            for n in ast.walk(mod.tree):
+                if isinstance(n, ast.Call) and isinstance(n.func, ast.Attribute) and n.func.attr in MUTATORS and isinstance(n.func.value, ast.Attribute) and n.func.value.attr == attr:
+                    return (False, f"the cached value is shared by everyone who asks for it, and `.{attr}` (which receives it) is mutated at {mod.rel}:{n.lineno}")
+                if isinstance(n, (ast.Assign, ast.AugAssign)):
+                    for t in (n.targets if isinstance(n, ast.Assign) else [n.target]):
+                        if isinstance(t, ast.Subscript) and isinstance(t.value, ast.Attribute) and t.value.attr == attr:
+                            return (False, f"the cached value is shared by everyone who asks for it, and `.{attr}` (which receives it) is written at {mod.rel}:{n.lineno}")
+    return (True, f"memo table of {holder.qual}: the key {norm(kexpr)} covers every parameter the cached value is computed from, and the shared values are never mutated")
+
+
 def rule_no_shared_state(ctx, rep, rid: str) -> None:
-    rep.rule(rid, "no process-wide mutable state: every module- and class-level binding is a class, function, import, immutable value, singleton or an audited read-only table that nothing mutates; no global statements, function attributes, mutable default arguments or memoising decorators", floor=30)
+    rep.rule(rid, "no process-wide mutable state: every module- and class-level binding is a class, function, import, immutable value, singleton, an audited read-only table that nothing mutates, or a memo table of one pure module-level function whose key covers every parameter the cached value depends on; no global statements, function attributes, mutable default arguments or memoising decorators", floor=30)
     # positive control: the classifier must flag a module-level cache
     probe = ast.parse("_REGEX_CACHE = {}\n_PROTO = JSObject()\n").body
     if classify_binding("_REGEX_CACHE", probe[0].value) is None or classify_binding("_PROTO", probe[1].value) is None:
@@ -108,6 +276,14 @@ def rule_no_shared_state(ctx, rep, rid: str) -> None:
                         else:
                             rep.ok(rid, key, {"table": name, "mutation_sites": 0})
                         continue
+                    if sname == m.name and isinstance(value, ast.Dict) and not value.keys:
+                        mt = memo_table(ctx, m, name)
+                        if mt is not None and mt[0]:
+                            rep.ok(rid, key, {"memo": mt[1]})
+                            continue
+                        if mt is not None:
+                            rep.bad(rid, key, f"{sname}.{name} is a process-wide memo table whose key does not determine its value: {mt[1]}; the result depends on what other contexts (or earlier evaluations) asked for first", f"{m.rel}:{line}")
+                            continue
                     rep.bad(rid, key, f"{sname} binds {name} to a {why} at import time: state shared by every context in the process", f"{m.rel}:{line}")
         for n in ast.walk(m.tree):
             if isinstance(n, ast.Global):
